@@ -142,8 +142,75 @@ class Kernel:
         subst(init, f)
         return found[0] if found else None
 
+    # -- list expressions: comprehensions and collect-loops over a base list, composed -------------------
+    def _rebase(self, t, E1):
+        """Rewrite a canonical term over an intermediate element y = E1(base element) into a term over the base element."""
+        if E1 == ("e",):
+            return t
+
+        def f(x):
+            if x == ("e",):
+                return E1
+            if x == ("p",):
+                return simp(("idx", E1, C(0)))
+            if x == ("t",):
+                return simp(("idx", E1, C(1)))
+            return None
+        r = subst(t, f)
+        # idx(('e',), k) produced by simp on an identity element
+        def g(x):
+            if x == ("idx", ("e",), C(0)):
+                return ("p",)
+            if x == ("idx", ("e",), C(1)):
+                return ("t",)
+            return None
+        return subst(r, g)
+
+    def listexpr(self, t, depth=0):
+        """(base source, filter, element, whole) of a list built from a base list by comprehensions / append-loops,
+        with filter and element expressed over the BASE element; None if t is not such a list."""
+        if depth > 6 or not isinstance(t, tuple) or not t:
+            return None
+        if t[0] == "compr":
+            L = self.sx.loops[t[1]]
+            if L.ckind not in ("list", "gen", "set"):
+                return None
+            flt = simp(("and", tuple(L.filters))) if L.filters else TRUE
+            return self._compose(L, flt, L.elt, depth)
+        if t[0] == "res" and t[1] in self.sx.loops:
+            L = self.sx.loops[t[1]]
+            if L.kind != "for" or L.has_break or L.has_return:
+                return None
+            fo = self._classified(L.id).get(t[2])
+            if fo is None or fo.kind != "COLLECT" or L.init.get(t[2]) != ("list", ()):
+                return None
+            return self._compose(L, L.filter, fo.term, depth)
+        return None
+
+    def _compose(self, L, flt, elt, depth):
+        inner = self.listexpr(L.source, depth + 1)
+        f1 = self.canon(flt, L.id)
+        e1 = self.canon(elt, L.id)
+        if inner is None:
+            return (self.canon_top(L.source), f1, e1, L.whole)
+        S, F0, E0, w0 = inner
+        return (S, simp(("and", (F0, self._rebase(f1, E0)))), self._rebase(e1, E0), w0 and L.whole)
+
+    def _list_arg(self, t):
+        """For max/min/sum arguments: (listexpr, extra constant elements) for X, [c..] + X, X + [c..]."""
+        le = self.listexpr(t)
+        if le is not None:
+            return le, []
+        if t[0] == "cat":
+            for a, b in ((t[1], t[2]), (t[2], t[1])):
+                if a[0] == "list" and all(is_const(x) or not mentions(x, lambda y: y[0] == "elem") for x in a[1]):
+                    le = self.listexpr(b)
+                    if le is not None:
+                        return le, list(a[1])
+        return None, []
+
     def kfold(self, t):
-        """Canonical fold behind a term: ('res', L, v), ('compr', L) or sum/max/min over a comprehension."""
+        """Canonical fold behind a term: ('res', L, v), ('compr', L) or sum/max/min over a list expression."""
         if not isinstance(t, tuple):
             return None
         if t[0] == "res":
@@ -154,6 +221,10 @@ class Kernel:
             fo = self._classified(lid).get(v)
             if fo is None:
                 return None
+            if fo.kind == "COLLECT" and loop.init.get(v) == ("list", ()) and not loop.has_break and not loop.has_return:
+                le = self.listexpr(t)
+                if le is not None:
+                    return KFold(kind="COMPR", term=le[2], source=le[0], filter=le[1], whole=le[3], loop=loop, via="append loop", ckind="list")
             return self._from_fold(loop, v, fo)
         if t[0] == "compr":
             loop = self.sx.loops[t[1]]
@@ -161,75 +232,103 @@ class Kernel:
             arg = self._argset_by_filter(loop, flt)
             if arg is not None:
                 return arg
+            le = self.listexpr(t)
+            if le is not None:
+                return KFold(kind="COMPR", term=le[2], source=le[0], filter=le[1], whole=le[3], loop=loop, via="comprehension", ckind=loop.ckind)
             return KFold(kind="COMPR", term=self.canon(loop.elt, loop.id), source=self._src(loop), filter=self.canon(flt, loop.id),
                          whole=loop.whole, loop=loop, via="comprehension", ckind=loop.ckind)
-        if t[0] == "call" and t[1] in ("sum", "max", "min") and len(t[2]) >= 1 and t[2][0][0] == "compr" and len(t[2]) == 1:
-            loop = self.sx.loops[t[2][0][1]]
-            flt = simp(("and", tuple(loop.filters))) if loop.filters else TRUE
+        if t[0] == "call" and t[1] in ("sum", "max", "min") and 1 <= len(t[2]) <= 2:
+            le, extra = self._list_arg(t[2][0])
+            if le is None:
+                return None
             kws = dict(t[3])
-            base = dict(term=self.canon(loop.elt, loop.id), source=self._src(loop), filter=self.canon(flt, loop.id),
-                        whole=loop.whole, loop=loop, via="builtin " + t[1])
+            base = dict(term=le[2], source=le[0], filter=le[1], whole=le[3], loop=None, via="builtin " + t[1])
             if t[1] == "sum":
-                init = self.canon_top(kws.get("start", C(0)))
+                if extra:
+                    return None
+                init = self.canon_top(t[2][1]) if len(t[2]) == 2 else self.canon_top(kws.get("start", C(0)))
                 return KFold(kind="SUM", init=init, **base)
+            if len(t[2]) != 1:
+                return None
             init = self.canon_top(kws["default"]) if "default" in kws else None
+            if extra:
+                if len(extra) != 1:
+                    return None
+                init = self.canon_top(extra[0])
+                fe = None
             return KFold(kind="EXT", sense=t[1], strict=None, init=init, **base)
-        if t[0] == "call" and t[1] == "sum" and len(t[2]) == 2 and t[2][0][0] == "compr":
-            loop = self.sx.loops[t[2][0][1]]
-            flt = simp(("and", tuple(loop.filters))) if loop.filters else TRUE
-            return KFold(kind="SUM", init=self.canon_top(t[2][1]), term=self.canon(loop.elt, loop.id), source=self._src(loop),
-                         filter=self.canon(flt, loop.id), whole=loop.whole, loop=loop, via="builtin sum")
         return None
 
     def _argset_by_filter(self, loop, flt):
-        """`[label for ... in S if key == max(keys)]` (directly or zipped with the key list) is an arg-set."""
+        """`[label for ... in S if key == max(keys)]` (directly, or zipped with the key list; the extremum may be taken
+        over `[seed] + keys`) is an arg-set."""
         if flt[0] != "cmp" or flt[1] != "==" or loop.ckind != "list":
             return None
         sides = (flt[2], flt[3])
-        ext = [x for x in sides if x[0] == "call" and x[1] in ("max", "min") and len(x[2]) == 1 and x[2][0][0] == "compr"]
+        ext = [x for x in sides if x[0] == "call" and x[1] in ("max", "min") and len(x[2]) == 1]
         if len(ext) != 1:
             return None
         ext = ext[0]
         cur = sides[0] if sides[1] == ext else sides[1]
-        Lk = self.sx.loops[ext[2][0][1]]
-        if Lk.filters:
+        kle, extra = self._list_arg(ext[2][0])
+        if kle is None or kle[1] != TRUE or len(extra) > 1:
             return None
         src_t = loop.source
         elem = ("elem", loop.id)
-        if src_t[0] == "call" and src_t[1] == "zip" and len(src_t[2]) == 2 and src_t[2][1] == ("compr", Lk.id) and src_t[2][0] == Lk.source:
-            # elem = (S-element, key)
-            if cur != simp(("idx", elem, C(1))):
+        if src_t[0] == "call" and src_t[1] == "zip" and len(src_t[2]) == 2:
+            S_t, K_t = src_t[2]
+            k2 = self.listexpr(K_t)
+            if k2 is None or k2 != kle or self.canon_top(S_t) != kle[0] or cur != simp(("idx", elem, C(1))):
                 return None
-            base = src_t[2][0]
             s_elem = simp(("idx", elem, C(0)))
-            label = subst(loop.elt, lambda x: ("elem", Lk.id) if x == s_elem else None)
-            if mentions(label, lambda x: x == elem):
+            lab = subst(loop.elt, lambda x: ("elem", -1) if x == s_elem else None)
+            if mentions(lab, lambda x: x == elem):
                 return None
-            key_t = Lk.elt
-        elif src_t == Lk.source:
-            base = src_t
-            key_here = subst(Lk.elt, lambda x: elem if x == ("elem", Lk.id) else None)
-            if cur != key_here:
-                return None
-            label = subst(loop.elt, lambda x: ("elem", Lk.id) if x == elem else None)
-            key_t = Lk.elt
+            label = self.canon(subst(lab, lambda x: elem if x == ("elem", -1) else None), loop.id)
+            base = kle[0]
         else:
-            return None
+            le = self.listexpr(src_t)
+            base = le[0] if le is not None and le[1] == TRUE and le[2] == ("e",) else self.canon_top(src_t)
+            if base != kle[0] or self.canon(cur, loop.id) != kle[2]:
+                return None
+            label = self.canon(loop.elt, loop.id)
         kws = dict(ext[3])
         init = self.canon_top(kws["default"]) if "default" in kws else None
-        of = KFold(kind="EXT", sense=ext[1], strict=True, init=init, term=self.canon(key_t, Lk.id), source=self.canon_top(base),
-                   whole=Lk.whole and loop.whole, loop=Lk, via="builtin " + ext[1])
-        return KFold(kind="ARGSET", of=of, label=self.canon(label, Lk.id), ties=True, init=("list", ()), source=self.canon_top(base), filter=TRUE,
-                     whole=Lk.whole and loop.whole, loop=loop, via="filter by == %s(...)" % ext[1])
+        if extra:
+            init = self.canon_top(extra[0])
+        of = KFold(kind="EXT", sense=ext[1], strict=True, init=init, term=kle[2], source=base, whole=kle[3] and loop.whole, loop=None,
+                   via="builtin " + ext[1])
+        return KFold(kind="ARGSET", of=of, label=label, ties=True, init=("list", ()), source=base, filter=TRUE,
+                     whole=kle[3] and loop.whole, loop=loop, via="filter by == %s(...)" % ext[1])
 
     def _src(self, loop):
         s = loop.source
-        if s[0] == "compr":
-            inner = self.kfold(s)
-            return ("filtered", inner.source, inner.filter) if inner and inner.term == ("e",) else self.canon_top(s)
+        le = self.listexpr(s)
+        if le is not None and le[2] == ("e",):
+            return ("filtered", le[0], le[1]) if le[1] != TRUE else le[0]
         return self.canon_top(s)
 
     def _from_fold(self, loop, v, fo):
+        sliced_rest = None
+        if loop.source[0] == "slice" and loop.source[2] == C(1) and loop.source[3] == C(None) and loop.source[4] == C(None) and fo.kind == "EXT":
+            # `seed = f(X[0]); for e in X[1:]: ...` is the fold over the whole of X seeded with its first element
+            X = loop.source[1]
+            init = getattr(fo, "init", None)
+
+            def f(x):
+                if x == ("idx", X, C(0)):
+                    return ("elem", loop.id)
+                return None
+            if init is not None and subst(init, f) == fo.term:
+                sliced_rest = X
+        if sliced_rest is not None:
+            import copy as _copy
+            l2 = _copy.copy(loop)
+            l2.source, l2.whole = sliced_rest, True
+            k = self._from_fold(l2, v, fo)
+            k.init = ("first",)
+            k.first_filter = k.filter
+            return k
         k = KFold(kind=fo.kind, source=self._src(loop), filter=self.canon(loop.filter, loop.id), whole=loop.whole,
                   has_break=loop.has_break, has_return=loop.has_return, loop=loop, var=v)
         # a filtered source folds into the filter
